@@ -90,6 +90,32 @@ func checks() map[string]*Check {
 		NT:     func(r *Result) bool { return cnt(r, "votes_granted") >= 2 && cnt(r, "state.set") >= 4 },
 		Rule:   "non-trivial: at least two granted real votes and four term/vote writes",
 		Assume: clusterAssume})
+	storeAssume := []string{
+		"crash model: process death — every completed write(2) persists, in order; images are synthesised by replaying the strace-recorded syscalls (self-validated: the full replay must be byte-identical to the directory the workload left)",
+		"byte prefixes of a write: all when <= 128 bytes, else the first/last 8 and every 64th",
+		"loss of un-fsynced data (power failure) is not modelled here",
+	}
+	img := func(r *Result) bool { return cnt(r, "images") > 0 && cnt(r, "traces_validated") > 0 }
+	add(&Check{ID: "C12", Level: "fault_enumeration", Props: []string{"C12"},
+		Runs: []RunSpec{
+			{Scen: "store.log", Params: "ops=8", Quick: 16, Thorough: 200},
+			{Scen: "store.log", Params: "ops=14", Quick: 16, Thorough: 300},
+			{Scen: "store.log", Params: "ops=30", Quick: 4, Thorough: 60},
+		},
+		NT:     img,
+		Rule:   "each evaluation is one seed-determined API sequence (append/append-batch/truncate/compact/discard/close/reopen) on the real file-backed log under strace; every syscall boundary and byte prefix of every write yields a crash image that is reopened with the real code, compared with a reference list model (state after k-1, after k, or k-1 plus a prefix of an in-flight append) and then exercised further (3 operations + reopen). distinct = distinct operation sequences with a validated trace; images are counted in events_by_kind.images",
+		Assume: storeAssume})
+	add(&Check{ID: "C13", Level: "fault_enumeration", Props: []string{"C13"},
+		Runs: []RunSpec{
+			{Scen: "store.state", Params: "ops=10", Quick: 12, Thorough: 200},
+			{Scen: "store.snap", Params: "ops=3", Quick: 12, Thorough: 150},
+			{Scen: "store.snap", Params: "ops=8", Quick: 4, Thorough: 60},
+			{Scen: "store.snap", Params: "ops=40", Quick: 1, Thorough: 12},
+		},
+		NT:     img,
+		Rule:   "each evaluation is one seed-determined SetState sequence or snapshot-storage sequence (create/write*/close|discard/get/reopen, payloads 0 B..>2 chunks, up to 40 snapshots) under strace; on every crash image the storages and NewRaft must construct at the first attempt, State() must be the last returned or the in-flight value, SnapshotFile() the most recently closed snapshot (or its in-flight successor), complete and with matching metadata",
+		Assume: storeAssume})
+	m["C04"].Runs = append(m["C04"].Runs, RunSpec{Scen: "store.log", Params: "ops=12", Quick: 4, Thorough: 40})
 	return m
 }
 
